@@ -11,7 +11,8 @@ use crate::codec::aead::CipherMethod;
 pub fn new_encoder(kind: CipherKind, key: &[u8], salt: &[u8]) -> Result<ChunkEncoder, InvalidLength> {
     let key = hkdfsha1(key, salt)?;
     let auth = new_auth(kind, &key);
-    Ok(ChunkEncoder::new(0xffff, auth))
+    // SIP004: a chunk's payload is capped at 0x3fff bytes
+    Ok(ChunkEncoder::new(0x3fff + 2 + 2 * kind.tag_size(), auth))
 }
 
 pub fn new_decoder(kind: CipherKind, key: &[u8], salt: &[u8]) -> Result<ChunkDecoder, InvalidLength> {
